@@ -313,10 +313,14 @@ def impl(case):
         res['blocks'] = blocks
         res['ts_ok'] = ts_ok
         res['combined'] = None
+        res['combine_err'] = None
         if got:
-            cb, ok = _canon_events(P.combine_events(got))
-            res['combined'] = cb
-            res['ts_ok'] = res['ts_ok'] and ok
+            try:
+                cb, ok = _canon_events(P.combine_events(got))
+                res['combined'] = cb
+                res['ts_ok'] = res['ts_ok'] and ok
+            except ValueError as e:
+                res['combine_err'] = str(e)[:120]
         return res
     if case['k'] in ('range', 'latest'):
         E = _mk_events(case['block'])
@@ -363,6 +367,9 @@ def term(case, res):
         if res['combined'] is not None:
             t = (f"({t}) && check_combine {listlit([_blocklit(b) for b in res['blocks']])} 0 "
                  f"(Some {_blocklit(res['combined'])})")
+        elif res.get('combine_err'):
+            code = 2 if 'not aligned' in res['combine_err'] else 3
+            t = f"({t}) && check_combine {listlit([_blocklit(b) for b in res['blocks']])} {code} None"
         return t
     if case['k'] == 'range':
         return f"check_range {_blocklit(case['block'])} {zlit(case['a'])} {zlit(case['b'])} {optlit(res['block'], _blocklit)}"
@@ -373,6 +380,8 @@ def term(case, res):
 
 
 def nontrivial(case, res):
+    if not isinstance(res, dict) or 'raised' in res:      # the driver's record of an unexpected exception
+        return False
     if case['k'] == 'edges':
         return any(b[0] for b in res['blocks'])
     return bool(res.get('block') and res['block'][0])
@@ -384,6 +393,8 @@ def oracle(case, res):
     if not res.get('ts_ok', True):
         return 'an Events object has a wrong ts column (ts != sample / fs), unknown event names or non-integer fields'
     if case['k'] == 'edges':
+        if res.get('combine_err'):
+            return f"the blocks emitted by edges cannot be merged: {res['combine_err']}"
         if case.get('glitch') or case['m'] < 1:
             return None                      # error paths: model = code only
         if not res['ok']:
@@ -462,6 +473,9 @@ def distribution(cases, results):
         k = c['k']
         e = d.setdefault(k, {'n': 0})
         e['n'] += 1
+        if 'raised' in r:
+            e['unexpected_exceptions'] = e.get('unexpected_exceptions', 0) + 1
+            continue
         if k == 'edges':
             x = [b for ch in c['chunks'] for b in ch]
             cl = c['m'] >= 1 and clean(c['m'], c['init'], x)
